@@ -31,6 +31,7 @@ def _work(args):
 def main():
     ap = argparse.ArgumentParser()
     ap.add_argument('prop')
+    ap.add_argument('--dump-names', action='store_true')
     ap.add_argument('--tier', default=os.environ.get('VERIF_TIER') or 'quick')
     ap.add_argument('--src-root', default=os.environ.get('VERIF_SRC_ROOT', '/repo/src'))
     ap.add_argument('--replay')
@@ -55,6 +56,7 @@ def main():
         items = []
     if a.only:
         items = [i for i in items if a.only in repr(i)]
+        os.environ['VERIF_ONLY'] = '1'
     jobs = [(a.prop, a.src_root, it, a.tier) for it in items]
     if a.jobs <= 1 or len(jobs) <= 1:
         for j in jobs:
@@ -80,6 +82,26 @@ def main():
     except ModuleNotFoundError:
         replay = lambda name, e: (None, None)
         known_check = None
+    if a.tier == 'thorough' and not a.only and not res.crashes:
+        # thorough tier: on top of the proof obligations the native replay battery of the property (real code under /venv/bin/python:
+        # differential / fold / schedule batteries, see replay/native_*.py) is swept over the CURRENT tree.  It is a BOUNDED cross-check of the
+        # contracts' assumptions (never counted as proved); a failing input it finds is a replayed violation.
+        name = f'{a.prop}.native-sweep[bounded]'
+        ent = {'verdict': 'undecided', 'detail': 'native battery of the property on the current tree', 'model': None, 'path': [], 'instances': 1,
+               'seconds': 0.0, 'backends': {'native': 1}, 'trivial': 0}
+        t1 = time.time()
+        try:
+            confirmed, _path = replay(name, ent)
+        except Exception as e:      # noqa
+            confirmed = None
+            ent['detail'] += f' (driver error: {e!r})'
+        ent['seconds'] = time.time() - t1
+        if confirmed is not None:
+            ent['verdict'] = 'refuted' if confirmed else 'discharged'
+            res.obligations[name] = ent
+    if a.dump_names:
+        for n in sorted(res.obligations):
+            print('NAME', n)
     code = finish(res, tier=a.tier, seed=seed, t0=t0,
                   checker_cmd=f'./check {a.prop} --tier {a.tier}' + (f' --src-root {a.src_root}' if a.src_root != '/repo/src' else ''),
                   assumptions=getattr(mod, 'ASSUMPTIONS', []), trusted_base=getattr(mod, 'TRUSTED_BASE', []),
